@@ -87,6 +87,9 @@ def p_pval(t: Toks):
             f = t.next()
             fields[f] = p_pval(t)
         t.next()
+        _load_plugins()
+        if cls in REALIZE:
+            return REALIZE[cls](fields)
         if cls == "Other":
             return _Other(fields.get("__str__"))
         if cls == "Tag":
@@ -132,12 +135,41 @@ def e_pval(v) -> str:
         return "U [ " + "".join(e_pval(x) + " " for x in v) + "]"
     if isinstance(v, dict):
         return "M [ " + "".join(es(k) + " " + e_pval(x) + " " for k, x in v.items()) + "]"
+    for enc in ENCODE:
+        r = enc(v, e_pval)
+        if r is not None:
+            return r
     if isinstance(v, _Other):
         return "O Other [ " + ("" if v._text is None else "__str__ S " + es(v._text) + " ") + "]"
     return f"O {type(v).__name__} [ ]"
 
 
+#: area plug-ins (harness/ops_src_<area>.py) register here: function name -> callable on the realised arguments;
+#: class name -> constructor from the dict of realised fields; type -> encoder to a pval term
+CALLS: dict = {}
+REALIZE: dict = {}
+ENCODE: list = []
+
+
+def _load_plugins():
+    import importlib
+    import os
+    if getattr(_load_plugins, "done", False):
+        return
+    _load_plugins.done = True
+    here = os.path.dirname(os.path.abspath(__file__))
+    for fn in sorted(os.listdir(here)):
+        if fn.startswith("ops_src_") and fn.endswith(".py"):
+            try:
+                importlib.import_module(fn[:-3])
+            except Exception:  # noqa: BLE001  (its functions then answer `unsupported`)
+                pass
+
+
 def _call(f: str, a: list):
+    _load_plugins()
+    if f in CALLS:
+        return CALLS[f](a)
     import htmltools
     from htmltools import _core, _util
     if f == "html_escape":
